@@ -93,8 +93,10 @@ def extract(profile="dev", force=False):
     # keep the cache small
     try:
         files = sorted((os.path.join(CACHE, "facts", f) for f in os.listdir(os.path.join(CACHE, "facts")) if f.endswith(".json")), key=os.path.getmtime)
-        for f in files[:-24]:
-            os.remove(f)
+        now = time.time()
+        for f in files[:-48]:
+            if now - os.path.getmtime(f) > 900:      # never evict a file another process may be about to load
+                os.remove(f)
         for f in os.listdir(os.path.join(CACHE, "facts")):
             if f.endswith(".lock") and not os.path.exists(os.path.join(CACHE, "facts", f[:-5])):
                 os.remove(os.path.join(CACHE, "facts", f))
